@@ -93,8 +93,11 @@ fn emit_all(sink: &mut Sink, m: &Vec<Vec<i64>>, b: &Vec<Vec<i64>>, src: &str) {
     }
 }
 
-/// the fixed-size Matrix type only exposes its row echelon constructor: every shape must be accepted without a panic
-fn echelon_fixed(sink: &mut Sink, m: &Vec<Vec<i64>>) {
+/// the fixed-size Matrix type: its public row echelon constructor must accept every shape without a panic; with the
+/// hook (cfg rust_dsymbols_verif) its private rank / null space / solve / determinant / inverse are driven through
+/// public wrappers and judged by the same trace actions as the VecMatrix backends
+fn echelon_fixed(sink: &mut Sink, m: &Vec<Vec<i64>>, b: &Vec<Vec<i64>>) {
+    let _ = b;
     macro_rules! shape { ($n:literal, $c:literal) => {
         if m.len() == $n && m[0].len() == $c {
             let mut e = json!({"ev": "echelon", "backend": "Matrix<BigRational>", "a": m});
@@ -103,16 +106,57 @@ fn echelon_fixed(sink: &mut Sink, m: &Vec<Vec<i64>>) {
                 let mut a = Matrix::<BigRational, $n, $c>::new();
                 for i in 0..$n { for j in 0..$c { a[i][j] = BigRational::from(BigInt::from(m[i][j])); } }
                 let _ = RowEchelonMatrix::new(&a);
-                let mut b = Matrix::<i64, $n, $c>::new();
-                for i in 0..$n { for j in 0..$c { b[i][j] = m[i][j].clamp(-2, 2); } }
-                let _ = RowEchelonMatrix::new(&b);
+                let mut bb = Matrix::<i64, $n, $c>::new();
+                for i in 0..$n { for j in 0..$c { bb[i][j] = m[i][j].clamp(-2, 2); } }
+                let _ = RowEchelonMatrix::new(&bb);
             });
             if let Err(msg) = r { e["panic"] = json!(msg); }
+            sink.emit(e);
+            #[cfg(rust_dsymbols_verif)]
+            {
+                let mut a = Matrix::<BigRational, $n, $c>::new();
+                for i in 0..$n { for j in 0..$c { a[i][j] = BigRational::from(BigInt::from(m[i][j])); } }
+                let base = |ev: &str| json!({"ev": ev, "backend": "bigrational", "type": "Matrix<T,N,M>", "a": m});
+                let mut e = base("rank"); pending(&e);
+                match catch(|| a.verif_rank()) { Ok(v) => e["out"] = json!(v), Err(msg) => e["panic"] = json!(msg) } sink.emit(e);
+                let mut e = base("nullspace"); pending(&e);
+                match catch(|| a.verif_null_space()) {
+                    Ok(cols) => { e["ncols"] = json!(cols.len());
+                        e["out"] = json!((0..$c).map(|i| cols.iter().map(|cv| rat(&cv[i][0])).collect::<Vec<_>>()).collect::<Vec<_>>()); }
+                    Err(msg) => e["panic"] = json!(msg) }
+                sink.emit(e);
+                if b.len() == $n && b[0].len() >= 1 {
+                    let mut rhs = Matrix::<BigRational, $n, 1>::new();
+                    for i in 0..$n { rhs[i][0] = BigRational::from(BigInt::from(b[i][0])); }
+                    let b1: Vec<Vec<i64>> = b.iter().map(|r| vec![r[0]]).collect();
+                    let mut e = base("solve"); e["b"] = json!(b1); pending(&e);
+                    match catch(|| a.verif_solve(&rhs)) {
+                        Ok(x) => { e["some"] = json!(x.is_some()); e["out"] = x.map(|x| json!((0..$c).map(|i| vec![rat(&x[i][0])]).collect::<Vec<_>>())).unwrap_or(json!([])); }
+                        Err(msg) => e["panic"] = json!(msg) }
+                    sink.emit(e);
+                }
+            }
+        }
+    }; }
+    macro_rules! square { ($n:literal) => {
+        #[cfg(rust_dsymbols_verif)]
+        if m.len() == $n && m[0].len() == $n {
+            let mut a = Matrix::<BigRational, $n, $n>::new();
+            for i in 0..$n { for j in 0..$n { a[i][j] = BigRational::from(BigInt::from(m[i][j])); } }
+            let base = |ev: &str| json!({"ev": ev, "backend": "bigrational", "type": "Matrix<T,N,N>", "a": m});
+            let mut e = base("det"); pending(&e);
+            match catch(|| a.verif_determinant()) { Ok(v) => { if v.is_integer() { e["out"] = big(&v.to_integer()); } else { e["panic"] = json!("non-integer determinant"); } } Err(msg) => e["panic"] = json!(msg) }
+            sink.emit(e);
+            let mut e = base("inverse"); pending(&e);
+            match catch(|| a.verif_inverse()) {
+                Ok(x) => { e["some"] = json!(x.is_some()); e["out"] = x.map(|x| json!((0..$n).map(|i| (0..$n).map(|j| rat(&x[i][j])).collect::<Vec<_>>()).collect::<Vec<_>>())).unwrap_or(json!([])); }
+                Err(msg) => e["panic"] = json!(msg) }
             sink.emit(e);
         }
     }; }
     shape!(1, 1); shape!(1, 2); shape!(2, 1); shape!(1, 3); shape!(3, 1); shape!(2, 2); shape!(2, 3); shape!(3, 2); shape!(3, 3);
     shape!(2, 4); shape!(4, 2); shape!(3, 4); shape!(4, 3); shape!(4, 4); shape!(1, 4); shape!(4, 1);
+    square!(1); square!(2); square!(3); square!(4);
 }
 
 /// spec -> impl -> spec: matrices (and right-hand sides) enumerated by TLC
@@ -124,7 +168,7 @@ pub fn replay(args: &[String]) {
         let m: Vec<Vec<i64>> = c["a"].as_array().unwrap().iter().map(|r| r.as_array().unwrap().iter().map(|x| x.as_i64().unwrap()).collect()).collect();
         let b: Vec<Vec<i64>> = c["b"].as_array().unwrap().iter().map(|r| r.as_array().unwrap().iter().map(|x| x.as_i64().unwrap()).collect()).collect();
         emit_all(&mut sink, &m, &b, "tlc");
-        echelon_fixed(&mut sink, &m);
+        echelon_fixed(&mut sink, &m, &b);
     }
     sink.flush();
     println!("{}", json!({"cases": cases.len(), "events": sink.n}));
@@ -167,6 +211,7 @@ pub fn drive(args: &[String]) {
         let mut b: Vec<Vec<i64>> = (0..nr).map(|_| (0..nb).map(|_| rng.gen_range(-lim..=lim)).collect()).collect();
         if lim <= 1000 { let x: Vec<i64> = (0..nc).map(|_| rng.gen_range(-3..=3)).collect(); for i in 0..nr { b[i][0] = (0..nc).map(|j| m[i][j] * x[j]).sum(); } }
         emit_all(&mut sink, &m, &b, "random");
+        if nr <= 4 && nc <= 4 { echelon_fixed(&mut sink, &m, &b); }
     }
     // systems singular modulo the solver's prime: det = +-PRIME * k
     for k in [1i64, -1, 2, 3] {
